@@ -84,7 +84,7 @@ pub fn run_check(replay: Option<Value>) -> i32 {
         dim("jacobian", &["user", "finite-difference"]),
         dim("api", &["solve_ivp", "low-level builder"]),
         dim("first_step", &["auto", "given", "given, four times the span (first attempts rejected, trial stages far out)"]),
-        dim("stop", &["none", "interrupt/terminal early", "modified(x1)@2 (low-level only)", "interrupt/terminal late"]),
+        dim("stop", &["none", "interrupt/terminal early", "modified(x1)@2 (low-level only)", "interrupt/terminal late", "modified(x2) at the initial callback (low-level only)"]),
     ];
     lattice(&mut rep, "stats", &dims, only.as_deref(), |key, idx| {
         let m = M6[idx[0]];
@@ -108,7 +108,7 @@ pub fn run_check(replay: Option<Value>) -> i32 {
         if p0.name.starts_with("vanderpol") && backward {
             return None; // unstable backward
         }
-        if stop == 2 && !low {
+        if (stop == 2 || stop == 4) && !low {
             return None;
         }
         let span = if p0.name.starts_with("vanderpol") { span * 200.0 } else { span };
@@ -133,6 +133,7 @@ pub fn run_check(replay: Option<Value>) -> i32 {
                 0 => vec![],
                 1 => vec![(2, Ans::Interrupt)],
                 2 => vec![(2, Ans::Modified(1.0))],
+                4 => vec![(0, Ans::Modified(2.0))],
                 _ => {
                     let plain = run_lowlevel(&p, &c, &[], &[], None, false);
                     vec![(plain.recs.len().saturating_sub(2).max(1), Ans::Interrupt)]
@@ -142,7 +143,7 @@ pub fn run_check(replay: Option<Value>) -> i32 {
             if stop == 1 || stop == 3 {
                 out.tag("interrupted");
             }
-            if stop == 2 {
+            if stop == 2 || stop == 4 {
                 out.tag("modified");
             }
             out.events = r.st.n_ode + r.st.n_jac + r.recs.len() as u64;
